@@ -661,3 +661,23 @@ pub fn run(ctx: &Ctx) -> Report {
     }
     total
 }
+
+/// small single-threaded workload for the Miri shards
+pub fn miri_workload(seed: u64, n: usize) -> Report {
+    let mut rep = Report::new("miri shard: mutated and random parses");
+    let kinds = gen::all_kind_versions();
+    for i in 0..n as u64 {
+        let s = crate::rng::derive(seed, 4, i);
+        match i % 4 {
+            0 => mutation_case::<u16>(s, &mut rep, (0, i), &kinds),
+            1 => mutation_case::<u32>(s, &mut rep, (0, i), &kinds),
+            2 => random_case::<u16>(s, &mut rep, (0, i)),
+            _ => standalone(s, &mut rep, (0, i)),
+        }
+    }
+    // every one-byte body for two parsers with strings (the unsafe as_str sits behind them)
+    for b in 0..=255u8 {
+        judge::<u16>(0x30, &[0, 1, b], Ver::V5, "miri one-byte topic", &mut rep, (0, 0));
+    }
+    rep
+}
